@@ -598,7 +598,7 @@ impl Rw {
         let lit = proc_macro2::Literal::usize_unsuffixed(k);
         fl.expr = Box::new(parse_quote! { __rws_iter!(#lit, #e) });
         self.log("R-FOR", sp, format!("for-loop #{}: iterator expression named for the contract", k));
-        None
+        Some(vec![Stmt::Expr(Expr::ForLoop(fl.clone()), None)])
     }
 }
 
